@@ -107,6 +107,7 @@ class Harness:
             self.path.assume(ln >= min_len)
             if max_len is not None:
                 self.path.assume(ln <= max_len)
+            self.path.inputs[name + "_len"] = ln
         return self._reg(name, ABytes(arr, 0, ln, name))
 
     def enum(self, name, cls, only=None, exclude=()):
